@@ -717,8 +717,8 @@ func (p McClassBSessionReqPayload) MarshalBinary() ([]byte, error) {
 	binary.LittleEndian.PutUint32(b[1:5], p.SessionTime)
 
 	// TimeOutPeriodicity
-	b[5] = p.TimeOutPeriodicity.TimeOut & 0x1f // first 4 bits
-	b[5] |= (p.TimeOutPeriodicity.Periodicity & 0x17) << 4
+	b[5] = p.TimeOutPeriodicity.TimeOut & 0x0f // first 4 bits
+	b[5] |= (p.TimeOutPeriodicity.Periodicity & 0x07) << 4
 
 	// DLFrequency
 	if p.DLFrequency%100 != 0 {
@@ -747,8 +747,8 @@ func (p *McClassBSessionReqPayload) UnmarshalBinary(data []byte) error {
 	p.SessionTime = binary.LittleEndian.Uint32(data[1:5])
 
 	// TimeOutPeriodicity
-	p.TimeOutPeriodicity.TimeOut = data[5] & 0x1f
-	p.TimeOutPeriodicity.Periodicity = (data[5] >> 4) & 0x17
+	p.TimeOutPeriodicity.TimeOut = data[5] & 0x0f
+	p.TimeOutPeriodicity.Periodicity = (data[5] >> 4) & 0x07
 
 	// DLFrequency
 	dlFreqB := make([]byte, 4)
